@@ -59,9 +59,9 @@ func TestMain(m *testing.M) {
 	evid.Tests(
 		evid.Spec{Name: "TestReplay", Kind: "plain", QuickShards: 1, ThoroughShards: 1},
 		evid.Spec{Name: "TestPropExact", Kind: "rapid", Quick: 6000, Thorough: 300000, QuickShards: 4, ThoroughShards: 16},
-		evid.Spec{Name: "TestPropWorkers", Kind: "rapid", Quick: 240, Thorough: 8000, QuickShards: 8, ThoroughShards: 16},
+		evid.Spec{Name: "TestPropWorkers", Kind: "rapid", Quick: 240, Thorough: 4800, QuickShards: 8, ThoroughShards: 16},
 		evid.Spec{Name: "TestPropWorkersSmall", Kind: "rapid", Quick: 1200, Thorough: 40000, QuickShards: 2, ThoroughShards: 8},
-		evid.Spec{Name: "TestPropCLI", Kind: "rapid", Quick: 64, Thorough: 3200, QuickShards: 4, ThoroughShards: 16},
+		evid.Spec{Name: "TestPropCLI", Kind: "rapid", Quick: 64, Thorough: 1600, QuickShards: 4, ThoroughShards: 16},
 	)
 	evid.Commands("obiclean")
 	evid.Note("rule", "exact: 1-4 samples of up to 60 sequences (seeds, stars, chains, two-level hubs of one-difference variants in and out of homopolymers, 2-3 difference variants, unrelated sequences, ties; counts through merged_sample maps or sample/count attributes) built through hook H4 at distance 1, ratio 1 with 1-8 workers and compared with the model edge(s->f) <=> count(f)>count(s) and Levenshtein(s,f)=1 (full-matrix DP), status from out-/in-degree, mutation applied to the father gives the son; non-trivial = the model graph has at least one edge. workers: one to three abundant sequences with 100-1000 sons at distance 1 (100-230 sons carrying 1-3 differences at distance 2..3), every distance 1..3 x ratio {1,0.5,0.1}, H4 with 1 worker vs three worker counts from 2..32, repeated 3 (distance>1: 2) times: nodes (count, SonCount, weight, status) and edge sets equal, SonCount = in-degree, and at the defaults equal to the model; non-trivial = some node has at least 2 x (largest worker count) sons. workers_small: the same comparison on the small data sets. cli: the obiclean command on generated files, --max-cpu 1..32 x --batch-size x arrival-order jitter, repeated runs: per record obiclean_status, obiclean_weight, obiclean_head, the four counters, obiclean_mutation, merged_sample and count equal in all runs, -H keeps exactly the head records, and at the defaults status/mutation equal to the model; non-trivial = at least one record is internal in some sample. Distinct = hash of the data set and options.")
